@@ -6,6 +6,48 @@ import subprocess
 ROOT = os.path.dirname(os.path.dirname(os.path.abspath(__file__)))
 
 SPECS = {
+    "C01": {
+        "corr": ["RGA", "ERHT", "Proto"],
+        "engines": [
+            {"name": "hist", "tag": "c01", "extra": "prop=C01", "n": {"quick": 700, "thorough": 12000}},
+            {"name": "rga", "n": {"quick": 500, "thorough": 6000}},
+            {"name": "erht", "n": {"quick": 500, "thorough": 6000}},
+        ],
+        "explanation": "Generic convergence theorem (commutation of concurrent operations => all causal delivery orders agree), commutation proved for counters and for array inserts on the RGAList model; delivery discipline proved in C04. The structure models (RGAList incl. move/set/purge, ElementRHT, Counter) are compared with the real structures on random call sequences; the convergence oracle runs on real multi-client histories (2-5 clients, all flavors, push-only syncs).",
+        "assumptions": [
+            "PARTIAL: commutation premises for object LWW sets, array move/delete/set, text and tree are not proved; those clauses rest on the structure correspondence and on the convergence oracle",
+            "Root/operation glue (operations.Execute, json proxies) is exercised only by the history oracle, not modelled",
+        ],
+    },
+    "C03": {
+        "corr": ["RGA", "ERHT", "Proto"],
+        "engines": [
+            {"name": "hist", "tag": "c03", "extra": "prop=C03", "n": {"quick": 500, "thorough": 8000}},
+            {"name": "rga", "n": {"quick": 300, "thorough": 4000}, "seed_off": 7},
+        ],
+        "explanation": "Theorems: purging dead positions never changes the visible array; a purge decided with the minimum vector is justified by every vector it was computed from; the response vector is that minimum (and none is sent on push-only responses). Twin-run oracle on real histories: the same history with an extra idle attached client (which pins the minimum vector, so nothing is ever purged) must end in the same content, with no sync error on either side.",
+        "assumptions": [
+            "PARTIAL: 'content(GC on) = content(GC off) for every history' is decided by the twin-run oracle, not by a theorem",
+        ],
+    },
+    "C07": {
+        "corr": ["RGA", "ERHT"],
+        "engines": [
+            {"name": "rga", "n": {"quick": 600, "thorough": 8000}, "seed_off": 3},
+            {"name": "erht", "n": {"quick": 400, "thorough": 5000}, "seed_off": 3},
+            {"name": "c07", "n": {"quick": 300, "thorough": 6000}},
+        ],
+        "explanation": "Counter arithmetic proved (modular sum, wrap examples). Array index arithmetic: the RGAList model's linear scans are compared with the real treelist-backed Len/Get on every generated state. Text/array/object/counter editing calls on one Document (after random remote changes and GC) are compared with a plain reference (Go string/slice/map) by the c07 engine.",
+        "assumptions": ["text and tree index arithmetic have no Coq model: reference-model differential only"],
+    },
+    "C08": {
+        "corr": [],
+        "engines": [
+            {"name": "hist", "tag": "c08", "extra": "prop=C08", "n": {"quick": 700, "thorough": 10000}},
+        ],
+        "explanation": "Theorems over the Document.Update state machine with the CRDT layer abstracted (Section variables): a failing update changes nothing and drops the clone; clone = root is invariant under every sequence of updates given [proxy_agrees]. The hypothesis is what the engine validates on the real code: Root().Marshal() = Marshal() after every step of histories with failing/panicking updaters, remote packs, GC and undo/redo; and the all-or-nothing fingerprint (content, pending changes, checkpoint, vector, undo depth) around every failing update.",
+        "assumptions": ["[proxy_agrees] (executing the pushed operations on the root reproduces what the json proxy did to the clone) is a hypothesis of C08_clone_equals_root, validated differentially, not proved for the real json/operations code"],
+    },
     "C04": {
         "corr": ["Proto"],
         "engines": [
